@@ -1957,7 +1957,7 @@ func runServer(r *mon.Run, si int, t *tree, ki int, per int) {
 }
 
 func Run(r *mon.Run) {
-	r.Rule = "generated directory trees (depth <= 3; names with spaces, %, unicode, '..x', 'x..', '...', leading dots, literal '%2e%2e'; every file a unique token) that contain things named like the shell endpoints: c and io (a file in two trees out of three, a directory with index.html and x in the others), directories i/ and o/ each with files x, id, two ids drawn from a pool (spaces, unicode, %41, ?, #, ;) and a random hex id; canaries outside the root (sibling files and directories, a name-prefix sibling, parents, the directory that holds the symbolic links; content tokens, and name tokens that no request ever spells). Eight servers per tree (hsrv.Server in-process on real TLS), one per way of naming -serve-files-from: the directory, one regular file inside it, unset, a symbolic link to the directory, a symbolic link to the file, a chain of 2-4 links (each absolute or relative) to the directory, such a chain to the file, a dangling link (1-2 hops). The first three get the full number of random request lines (the same ones), every link kind a quarter of it (its own). Request lines are written raw (hk.RoundTrip; a sample through real curl --path-as-is): existing and missing clean paths, dot segments plain/%2e/%252e/mixed, ..;/, %2f %5c and backslashes, //, /./, overlong UTF-8, trailing dots, NUL and control bytes, 8 KiB paths, absolute-form, *, authority-form, no leading slash, queries, methods, Range, odd protocol versions, shell-named paths and near misses; 301s are followed by hand (<= 5 hops). On top, every server gets the shell endpoint x method matrix: paths /c, /%63, /io, /io/, /io/x, /i%6f, /i/<id> and /o/<id> for every id with files plus one without (ids percent-encoded in three styles) x methods GET HEAD POST PUT DELETE PATCH OPTIONS TRACE, two made-up tokens from a list (get, PROPFIND, G%54, ...) and one random token x request body none / Content-Length 0 / a body that ends / an open chunked body (all cells on the directory and file servers, one in three elsewhere). Oracle: no response at any hop contains a canary token; a 2xx body when a directory is named (directly or through links) is exactly an in-tree file (or the announced range of one) or a listing whose entries are exactly those of an in-tree directory; when a regular file is named (directly or through links) exactly that file comes back for non-shell targets (or an HTTP-layer rejection for targets that are not clean); unset answers 404; a dangling link yields no file content at all; for every request whose path names /c, /i/{id}, /o/{id}, /io or /io/..., whatever the method: the response carries no file token and the marker window of the request holds no 'File requested' notice (the file handler did not take it), /c returns the script, and the project's own uses (GET /i/{id}; POST or PUT with a body on /o/{id}; POST or PUT with an open body on /io) attach a stream (attach notice; delivered input line counted) - what other methods do on the streaming endpoints is recorded, not demanded; every request that reaches the file handler has a 'File requested' notice inside its marker window, also under link and dangling roots. A case = (tree, root kind, request); distinct = distinct (root kind, tree, request line, Range / body shape); clean-missing targets are counted as trivial"
+	r.Rule = "generated directory trees (depth <= 3; names with spaces, %, unicode, '..x', 'x..', '...', leading dots, literal '%2e%2e'; every file a unique token) that contain things named like the shell endpoints: c and io (a file in two trees out of three, a directory with index.html and x in the others), directories i/ and o/ each with files x, id, two ids drawn from a pool (spaces, unicode, %41, ?, #, ;) and a random hex id; canaries outside the root (sibling files and directories, a name-prefix sibling, parents, the directory that holds the symbolic links; content tokens, and name tokens that no request ever spells). Eight servers per tree (hsrv.Server in-process on real TLS), one per way of naming -serve-files-from: the directory, one regular file inside it, unset, a symbolic link to the directory, a symbolic link to the file, a chain of 2-4 links (each absolute or relative) to the directory, such a chain to the file, a dangling link (1-2 hops). The first three get the full number of random request lines (the same ones), every link kind a quarter of it (its own). Request lines are written raw (hk.RoundTrip; a sample through real curl --path-as-is): existing and missing clean paths, dot segments plain/%2e/%252e/mixed, ..;/, %2f %5c and backslashes, //, /./, overlong UTF-8, trailing dots, NUL and control bytes, 8 KiB paths, absolute-form, *, authority-form, no leading slash, queries, methods, Range, odd protocol versions, shell-named paths and near misses; 301s are followed by hand (<= 5 hops). On top, every server gets the shell endpoint x method matrix: paths /c, /%63, /io, /io/, /io/x, /i%6f, /i/<id> and /o/<id> for every id with files plus one without (ids percent-encoded in three styles) x methods GET HEAD POST PUT DELETE PATCH OPTIONS TRACE, two made-up tokens from a list (get, PROPFIND, G%54, ...) and one random token x request body none / Content-Length 0 / a body that ends / an open chunked body (all cells on the directory and file servers, one in three elsewhere). Oracle: no response at any hop contains a canary token; a 2xx body when a directory is named (directly or through links) is exactly an in-tree file (or the announced range of one) or a listing whose entries are exactly those of an in-tree directory; when a regular file is named (directly or through links) exactly that file comes back for non-shell targets (or an HTTP-layer rejection for targets that are not clean); unset answers 404; a dangling link yields no file content at all; for every request whose path names /c, /i/{id}, /o/{id}, /io or /io/..., whatever the method: the response carries no file token and the marker window of the request holds no 'File requested' notice (the file handler did not take it), /c returns the script, and the project's own uses (GET /i/{id}; POST or PUT with a body on /o/{id}; POST or PUT with an open body on /io) attach a stream (attach notice; delivered input line counted) - what other methods do on the streaming endpoints is recorded, not demanded; every request that reaches the file handler has a 'File requested' notice inside its marker window, also under link and dangling roots. Two more engines run beside the request-line servers. GONE (6 servers quick / 24 thorough, one per way of naming a directory or a file, operator queue depth 1, 4, 64 or 1024): waves of 10-24 parallel clients that dial first and then, together, write a file request (a clean target carrying a nonce) and leave at once - TLS half-close (close_notify + FIN) and reading the answer, FIN without close_notify, a complete keep-alive exchange followed by a second request and half-close, close_notify + close without reading, RST (SO_LINGER 0), and ordinary clients as control; every second wave with the operator's terminal stalled (hk.StallOperator: the consumer of the operator channel takes nothing, the queue is filled to the brim with filler lines before the requests are written, the clients are gone before it takes lines again). Oracle: every request for which the file handler's own log record ('File requested' with that request URI; it is written after the operator line was queued) is observed has its 'File requested' operator line before the marker sent afterwards. LIVE (6 / 24 servers: a regular file twice, a symbolic link and a chain of links to it, a directory, a link to a directory): the served file is 64 KiB - 4 MiB (log-uniform, unaligned) of 32-byte lines that spell a per-server token, the version and their own offset. Phase 1: 6-12 clients at once (half of them begin with the whole file at the same instant), each 3 / 6 requests over fresh or kept connections: whole file under varied clean non-shell paths, single ranges (1 byte to the whole file, across the 32 KiB copy-chunk border, open-ended, suffix), two-part ranges, HEAD. Phase 2: 5 / 12 times the file is replaced with nothing in flight - temporary file renamed over it, truncated and rewritten in place, deleted and recreated, for link roots the link switched to a new file / a new directory holding it (every method on every server) - and after each replacement a whole-file request on a fresh connection, a request on a connection kept across all replacements and 1-3 requests at once. Phase 3: 4-6 clients keep requesting while the file is replaced 4 / 10 times atomically (rename over it, link switched); clients and replacer are paced by request counts (two rounds granted per replacement, which is made when one has completed). Oracle: with [lo, hi] = [newest replacement complete before the request was written, newest replacement begun after its answer was read], a 200 body is exactly one of the versions lo..hi (outside phase 3 lo = hi: the current file), a 206 body exactly the announced range of one of them, a HEAD answer announces the length of one of them, 416 only for a range that starts past the end of one of them, and in single-file mode nothing else is an answer; in directory mode a 2xx body that is not (a range of) such a version is content that is no file of the tree. A case = (tree, root kind, request); distinct = distinct (root kind, tree, request line, Range / body shape); clean-missing targets are counted as trivial"
 	r.Assumptions = []string{
 		"symlinks inside the tree are not generated (following them is http.Dir behaviour the statement does not speak about); symbolic links are used only to name the configured root itself, where 'naming a directory' / 'naming a single file' is read as what the name resolves to",
 		"for a dangling link the statement fixes no status: only 'no file content', 'shell endpoints untouched' and 'file requests reported' are demanded",
@@ -1965,6 +1965,9 @@ func Run(r *mon.Run) {
 		"canary name tokens are never spelled in a request, so their appearance in a response is a leak, not an echo",
 		"matrix cells on /i/{id} carry no request body: the input endpoint never reads one, and the server does not notice a client leaving behind an unread body, which would keep the single shell slot busy for the following cells",
 		"CONNECT is left out of the matrix (net/http routes it without cleaning and clients cannot send it to a path)",
+		"'every file request is reported': a file request is one that reached the file handler, witnessed by the handler's own log record; requests of clients that reset the connection may never be read by the server and are then not counted (none is demanded). The pause before the stalled terminal takes lines again only shapes the schedule; no verdict depends on it",
+		"'exactly that file is returned' under change: a request that overlaps no replacement must get the file as it is; one that overlaps an atomic replacement (rename, link switch) must get one of the versions that bore the name during the request. Replacements that are not atomic (rewrite in place, delete and recreate) are made only while no request is in flight, because no server that reads the file while it is being rewritten can return a consistent copy",
+		"in directory mode the statement is about confinement, not about availability: only 2xx bodies are judged there (they must be exactly an in-tree file or an announced range of one); other statuses are recorded",
 	}
 	nt := r.N(6, 60)
 	per := r.N(400, 3000)
@@ -1995,17 +1998,30 @@ func Run(r *mon.Run) {
 		r.Sample("tree", map[string]any{"case_dir": trees[i].caseDir, "in_tree": listing, "canaries_outside": trees[i].canaryL, "single_file_mode_serves": trees[i].single, "shell_ids_with_files": trees[i].ids, "serve_files_from_by_kind": trees[i].roots, "links": trees[i].rootsL})
 	}
 	nk := len(rootKinds)
-	if r.WantEngine("target") {
-		mon.Parallel(nt*nk, runtime.NumCPU(), func(k int) {
-			runServer(r, k, trees[k/nk], k%nk, per)
-		})
+	nLive, nGone := r.N(6, 24), r.N(6, 24)
+	// the live and gone servers go first: they run alongside the request-line servers
+	var units []func()
+	for i := 0; i < max(nLive, nGone); i++ {
+		if i < nLive && r.Want("live", i) {
+			units = append(units, func() { runLive(r, i) })
+		}
+		if i < nGone && r.Want("gone", i) {
+			units = append(units, func() { runGone(r, i, trees[i%nt]) })
+		}
 	}
+	if r.WantEngine("target") {
+		for k := 0; k < nt*nk; k++ {
+			units = append(units, func() { runServer(r, k, trees[k/nk], k%nk, per) })
+		}
+	}
+	mon.Parallel(len(units), runtime.NumCPU(), func(k int) { units[k]() })
 	q := func(quick, thorough int64) int64 {
 		if r.Thorough() {
 			return thorough
 		}
 		return quick
 	}
+	liveGoneFloors(r, nLive, nGone)
 	ntarg := 0
 	for _, k := range rootKinds {
 		ntarg += nt * (per / k.div)
